@@ -580,6 +580,13 @@ def enc_fresh(ctx: Ctx, chk) -> None:
     m_ = _re.match(r"^self\.(\w+)\.dump\((.*)\)$", got)
     if m_ and m_.group(1) in schema_attrs(ctx) and m_.group(2) == msg:
         want = got  # the gateway's own MessageSchema instance, whatever the attribute is called
+    mb_ = _re.match(r"^self\.(\w+)\((.*)\)$", got)
+    if mb_ and mb_.group(2) == msg and send_raw.cls is not None:
+        # an attribute that holds the bound method `<schema>.dump`, stored once (`self._dump = self._schema.dump`): calling
+        # it is calling dump
+        stores_ = [n_.value for fl_ in send_raw.cls.methods.values() for f_ in fl_ for n_ in ctx.own_nodes(f_) if isinstance(n_, (ast.Assign, ast.AnnAssign)) and n_.value is not None and any(norm(t_) == f"self.{mb_.group(1)}" for t_ in (n_.targets if isinstance(n_, ast.Assign) else [n_.target]))]
+        if len(stores_) == 1 and isinstance(stores_[0], ast.Attribute) and stores_[0].attr == "dump" and isinstance(stores_[0].value, ast.Attribute) and norm(stores_[0].value.value) == "self" and stores_[0].value.attr in schema_attrs(ctx):
+            want = got
     if got == want and cn.canon(c.args[1]) == msg:
         chk.ok(rule, key, f"handler(self, {msg}, <buffer>, {want})", ctx.loc(send_raw, c))
     elif (mh_ := _re.match(r"^self\.(\w+)\((\w+)\)$", got)) and send_raw.cls is not None and send_raw.cls.find_method(mh_.group(1)) is not None and any(isinstance(x_, ast.Return) and x_.value is not None and (isinstance(x_.value, ast.Subscript) or (isinstance(x_.value, ast.Call) and isinstance(x_.value.func, ast.Attribute) and x_.value.func.attr in ("get", "pop", "setdefault"))) for x_ in ctx.own_nodes(send_raw.cls.find_method(mh_.group(1)))):
